@@ -104,3 +104,29 @@ func verifOracle_findFileMarker(data []byte, before []byte, name string, after [
 	}
 	return ""
 }
+
+// verifProbe_Write: directed search over a small dictionary of entry names for a
+// violation of C15's containment / error clauses on the real Write (used when the
+// verifier has no model to offer: paths are abstract values in the contracts).
+func verifProbe_Write() string {
+	names := []string{"..", "a/../..", "../x", "/abs", "a/../../b", ".", "", "a//b", "./../x", "a/./..", "x/../../..", "..a", "a/..b"}
+	for _, n := range names {
+		root, err := mkdirTempVerif()
+		if err != nil {
+			return ""
+		}
+		// dir does not exist yet and sits two levels below root, so that an escape is visible inside root
+		dir := root + "/p/d"
+		before := verifTree(root)
+		werr := Write(&Archive{Files: []File{{Name: n, Data: []byte("data\n")}}}, dir)
+		after := verifTree(root)
+		for p := range after {
+			if !before[p] && !(p == dir || strings.HasPrefix(p, dir+"/")) && !after[p+"/"] {
+				removeAllVerif(root)
+				return fmt.Sprintf("Write(entry %q, dir p/d) created the file %q outside dir (err=%v)", n, strings.TrimPrefix(p, root+"/"), werr)
+			}
+		}
+		removeAllVerif(root)
+	}
+	return ""
+}
